@@ -33,25 +33,31 @@ long ghost_id;                                     /* identity of the operator (
 #define H_PART(h, b) (&(h)->ghost_parts[0] + (b))
 #define DM_PART(d, b) (&(d)->ghost_parts[0] + (b))
 
-/* ---- std::list<SusceptibilityPart*> (TRUSTED: push_back appends, size() counts, iteration visits items[0..n) in order).
- * prepare() only appends: there the list is its size + the handle pushed last; the evaluation functions only iterate:
- * there items[] is a fresh array of n part handles.  Iterator = index, as in bimap.h. */
+/* ---- std::list<SusceptibilityPart*> (TRUSTED: push_back appends, size() counts, iteration visits the elements in order).
+ * Part handles are opaque and never dereferenced, so the list is modelled by its length (as in gf.c): the element at position k is
+ * the canonical handle &g_new_parts[0] + k.  push_back asserts that what is appended is the handle of the part created last and
+ * that it is the (n+1)-th one, so after prepare() the element at position k IS the k-th created part; for compute() / evaluation /
+ * copying of an arbitrary list the names of the handles are immaterial.  Iterator = index, as in bimap.h. */
 #define PL_MAX 1000000L
+struct SusceptibilityPart g_new_parts[1];   /* handles: &g_new_parts[0] + ordinal */
+#define PART_AT(k) (&g_new_parts[0] + (k))
 typedef struct PartList {
-  unsigned long n; struct SusceptibilityPart *last; struct SusceptibilityPart **items;
-  /* ghost */ long gidx;      /* ONE arbitrary position in [0,n) or -1 */
+  unsigned long n; struct SusceptibilityPart *last;
+  struct SusceptibilityPart *cur;   /* slot that `*it` refers to */
+  /* ghost */ long gidx;      /* ONE arbitrary position (or -1) */
   long last_pos;              /* position of the most recent dereference */
 } PartList;
 typedef struct PartListIt { PartList *l; long pos; } PartListIt;
 struct SusceptibilityPart *g_last_new;   /* result of the most recent `new SusceptibilityPart(...)` */
+unsigned long g_n_new;                   /* number of parts created */
 static inline void PartList_push_back(PartList *l, struct SusceptibilityPart *p)
 {
-  __CPROVER_assert(p == g_last_new, "C14: what is stored in the list is the part just created");
+  __CPROVER_assert(p == g_last_new && l->n + 1 == g_n_new, "C14: what is appended to the list is the part just created");
   l->n++; l->last = p;
 }
 static inline unsigned long PartList_size(PartList *l) { return l->n; }
 static inline _Bool PartList_wf(PartList *l)
-{ return l->n <= PL_MAX && __CPROVER_is_fresh(l->items, l->n * sizeof(struct SusceptibilityPart *)) && (l->gidx == -1 || (0 <= l->gidx && l->gidx < (long)l->n)); }
+{ return l->n <= PL_MAX && (l->gidx == -1 || (0 <= l->gidx && l->gidx < (long)l->n)); }
 #define PartList_begin(l_) ((PartListIt){ (l_), 0 })
 #define PartList_end(l_) ((PartListIt){ (l_), (long)(l_)->n })
 #define op_ne_PartListIt_PartListIt(a, b) ((a)->pos != (b)->pos)
@@ -59,15 +65,14 @@ static inline _Bool PartList_wf(PartList *l)
 #define PartListIt_mul(it) ({ \
   __CPROVER_assert(0 <= (it)->pos && (it)->pos < (long)(it)->l->n, "std::list: iterator dereferenced only before end()"); \
   (it)->l->last_pos = (it)->pos; \
-  &(it)->l->items[(it)->pos]; })
+  (it)->l->cur = PART_AT((it)->pos); \
+  &(it)->l->cur; })
 
 //@struct Pomerol::Susceptibility embed=A,B,H,DM
 
 struct Susceptibility *g_self;   /* the object under verification (for the monitors) */
 long g_hits;                     /* number of parts created for the ghost pair of relations */
 long g_expected;                 /* expected value of g_hits (pre-state) */
-unsigned long g_n_new;           /* number of parts created */
-struct SusceptibilityPart g_new_parts[1];   /* handles of the created parts: &g_new_parts[0] + ordinal */
 
 /* C19: retained(b) is an opaque oracle of the block number (DensityMatrix::isRetained(b) = parts[b]->isRetained(), not modified here) */
 _Bool __CPROVER_uninterpreted_retained(int);
@@ -175,13 +180,15 @@ __CPROVER_ensures((__CPROVER_old(self->Status) < Prepared && !VERIF_thrown) ==> 
 __CPROVER_ensures((__CPROVER_old(self->Status) < Prepared && !VERIF_thrown) ? g_hits == g_expected : g_hits == 0)
 /* every created part is in the list, and Vanishing <=> no part */
 __CPROVER_ensures((__CPROVER_old(self->Status) < Prepared && !VERIF_thrown) ==> (self->parts.n == g_n_new && !self->Vanishing == (self->parts.n != 0)))
+/* at most one part per relation of A and per relation of B */
+__CPROVER_ensures((__CPROVER_old(self->Status) < Prepared && !VERIF_thrown) ==> (self->parts.n <= (unsigned long)SAL->n && self->parts.n <= (unsigned long)SBR->n))
 //@loop 1
 __CPROVER_assigns(Aiter.pos, Biter.pos, self->parts.n, self->parts.last, g_hits, g_n_new, g_last_new, VERIF_thrown,
                   self->A.LeftRightBlocks.left.last_pos, self->B.LeftRightBlocks.right.last_pos)
 __CPROVER_loop_invariant(Aiter.v == SAL && Biter.v == SBR && ANontrivialBlocks == &self->A.LeftRightBlocks && BNontrivialBlocks == &self->B.LeftRightBlocks)
 __CPROVER_loop_invariant(0 <= Aiter.pos && Aiter.pos <= SAL->n && 0 <= Biter.pos && Biter.pos <= SBR->n)
 __CPROVER_loop_invariant(!VERIF_thrown)
-__CPROVER_loop_invariant(self->parts.n == g_n_new && g_n_new <= (unsigned long)Aiter.pos)
+__CPROVER_loop_invariant(self->parts.n == g_n_new && g_n_new <= (unsigned long)Aiter.pos && g_n_new <= (unsigned long)Biter.pos)
 __CPROVER_loop_invariant(GHOST_MATCH
      ? ((g_hits == 0 && Aiter.pos <= SAL->gpos && Biter.pos <= SBR->gpos) ||
         (g_hits == g_expected && Aiter.pos > SAL->gpos && Biter.pos > SBR->gpos))
@@ -189,7 +196,7 @@ __CPROVER_loop_invariant(GHOST_MATCH
 __CPROVER_decreases((SAL->n - Aiter.pos) + (SBR->n - Biter.pos))
 //@end
 
-//@harness h_Susc_prepare enforce=Susceptibility_prepare props=C14,C19 min_obl=2280 timeout=300 reach=4
+//@harness h_Susc_prepare enforce=Susceptibility_prepare props=C14,C19 min_obl=2312 timeout=300 reach=4
 void h_Susc_prepare(void)
 {
   struct Susceptibility *chi;
@@ -198,6 +205,78 @@ void h_Susc_prepare(void)
   else if (g_n_new == 0) REACH("exit_vanishing");
   else REACH("exit_parts");
 }
+
+/* ================================================================================================================
+ * compute() (Susceptibility.h: "Actually computes the parts"): nothing if already computed; prepare() first if needed (its
+ * CONTRACT is used at the call); then SusceptibilityPart::compute() (under contract in suscpart.c) on every part of the list
+ * exactly once (monitor: the part computed is the list element the iterator is on, positions strictly increase, so no part twice;
+ * ghost position: computed exactly once; number of compute() calls = number of parts); Status = Computed.  If prepare() throws
+ * (an operator is not prepared) nothing is computed and the status is unchanged.  A second call does nothing. */
+#define PREPARE_FRAME self->parts.n, self->parts.last, self->Vanishing, self->Status, g_hits, g_n_new, g_last_new, VERIF_thrown, \
+                  self->A.LeftRightBlocks.left.last_pos, self->B.LeftRightBlocks.right.last_pos
+long g_computes;          /* compute() calls on the part at the ghost position */
+long g_last_computed;     /* position of the part computed last */
+unsigned long g_n_computes;
+void SusceptibilityPart_compute(struct SusceptibilityPart *part)
+{
+  PartList *l = &g_self->parts; long k = l->last_pos;
+  __CPROVER_assert(0 <= k && k < (long)l->n && part == PART_AT(k), "C14: the part computed is the list element the iterator is on");
+  __CPROVER_assert(k > g_last_computed, "C14: every part is computed at most once");
+  g_last_computed = k; g_n_computes++;
+  if (k == l->gidx) g_computes++;
+  REACH("part_compute");
+}
+//@maythrow Susceptibility_prepare
+//@function Pomerol::Susceptibility::compute() as Susceptibility_compute
+//@contract
+__CPROVER_requires(__CPROVER_is_fresh(self, sizeof(*self)) && g_self == self)
+/* pre-conditions of prepare() (only needed when Status < Prepared) */
+__CPROVER_requires(BiView_wf(SAL) && BiView_wf(SBR))
+__CPROVER_requires(self->H.nblocks == self->DM.nblocks && SAL->kmax == self->H.nblocks && SBR->kmax == self->H.nblocks)
+__CPROVER_requires(self->Status >= Prepared || (self->Vanishing && self->parts.n == 0))
+__CPROVER_requires(g_hits == 0 && g_n_new == 0 && !VERIF_thrown && g_expected == EXPECTED_HITS)
+__CPROVER_requires(PartList_wf(&self->parts) && g_computes == 0 && g_n_computes == 0 && g_last_computed == -1)
+__CPROVER_assigns(PREPARE_FRAME, self->parts.cur, self->parts.last_pos, g_computes, g_n_computes, g_last_computed)
+/* already computed: nothing happens */
+__CPROVER_ensures(__CPROVER_old(self->Status) >= Computed ==>
+    (!VERIF_thrown && g_n_new == 0 && g_n_computes == 0 && self->Status == __CPROVER_old(self->Status) && self->parts.n == __CPROVER_old(self->parts.n) && !self->Vanishing == !__CPROVER_old(self->Vanishing)))
+/* prepare() is run iff the object was not prepared (then its post-conditions hold: g_hits == g_expected etc.) */
+__CPROVER_ensures(__CPROVER_old(self->Status) >= Prepared ==> (!VERIF_thrown && g_n_new == 0 && self->parts.n == __CPROVER_old(self->parts.n) && !self->Vanishing == !__CPROVER_old(self->Vanishing)))
+__CPROVER_ensures(__CPROVER_old(self->Status) < Prepared ==> (VERIF_thrown == (self->A.Status < Prepared || self->B.Status < Prepared)))
+__CPROVER_ensures((__CPROVER_old(self->Status) < Prepared && !VERIF_thrown) ==> (g_hits == g_expected && self->parts.n == g_n_new && !self->Vanishing == (self->parts.n != 0)))
+__CPROVER_ensures(VERIF_thrown ==> (g_n_computes == 0 && self->Status == __CPROVER_old(self->Status)))
+/* every part of the list is computed exactly once */
+__CPROVER_ensures((__CPROVER_old(self->Status) < Computed && !VERIF_thrown) ==>
+    (self->Status == Computed && g_n_computes == self->parts.n && g_computes == ((0 <= self->parts.gidx && self->parts.gidx < (long)self->parts.n) ? 1 : 0)))
+//@loop 1
+__CPROVER_assigns(iter.pos, self->parts.cur, self->parts.last_pos, g_computes, g_n_computes, g_last_computed)
+__CPROVER_loop_invariant(iter.l == &self->parts && 0 <= iter.pos && iter.pos <= (long)self->parts.n)
+__CPROVER_loop_invariant(g_last_computed == iter.pos - 1 && g_n_computes == (unsigned long)iter.pos)
+__CPROVER_loop_invariant(g_computes == ((0 <= self->parts.gidx && self->parts.gidx < iter.pos) ? 1 : 0))
+__CPROVER_decreases((long)self->parts.n - iter.pos)
+//@end
+
+//@harness h_Susc_compute enforce=Susceptibility_compute replace=Susceptibility_prepare props=C14 min_obl=1128 timeout=120 reach=5
+void h_Susc_compute(void)
+{
+  struct Susceptibility *chi;
+  Susceptibility_compute(chi);
+  if (VERIF_thrown) REACH("thrown");
+  else if (g_n_computes == 0) REACH("exit_nothing_computed");
+  else if (g_n_new == 0) REACH("exit_computed_prepared_before");
+  else REACH("exit_computed_after_prepare");
+}
+
+/* isVanishing() (Susceptibility.h: the flag "if Greens function vanishes, i.e. identical to 0"; prepare() proves Vanishing <=> no part) */
+//@function Pomerol::Susceptibility::isVanishing() const as Susceptibility_isVanishing
+//@contract
+__CPROVER_requires(__CPROVER_is_fresh(self, sizeof(*self)))
+__CPROVER_assigns()
+__CPROVER_ensures(!__CPROVER_return_value == !self->Vanishing)
+//@end
+
+//@harness h_Susc_isVanishing enforce=Susceptibility_isVanishing props=C14 min_obl=33 timeout=120 reach=1
+void h_Susc_isVanishing(void) { struct Susceptibility *chi; Susceptibility_isVanishing(chi); REACH("exit"); }
 
 /* ================================================================================================================
  * Evaluation (Susceptibility.h, C14):
@@ -225,7 +304,7 @@ static void model_add(cplx r)
 cplx SusceptibilityPart_call(struct SusceptibilityPart *part, cplx z)
 {
   PartList *l = &g_self->parts; long k = l->last_pos;
-  __CPROVER_assert(0 <= k && k < (long)l->n && part == l->items[k], "C14: the part evaluated is the list element the iterator is on");
+  __CPROVER_assert(0 <= k && k < (long)l->n && part == PART_AT(k), "C14: the part evaluated is the list element the iterator is on");
   __CPROVER_assert(C_SAME(z, g_z), "C14: every part is evaluated at the frequency z");
   cplx r = cplx_ctor2(__CPROVER_uninterpreted_partval_re(k, z.re, z.im), __CPROVER_uninterpreted_partval_im(k, z.re, z.im));
   model_add(r);
@@ -236,7 +315,7 @@ cplx SusceptibilityPart_call(struct SusceptibilityPart *part, cplx z)
 cplx SusceptibilityPart_of_tau(struct SusceptibilityPart *part, double tau)
 {
   PartList *l = &g_self->parts; long k = l->last_pos;
-  __CPROVER_assert(0 <= k && k < (long)l->n && part == l->items[k], "C14: the part evaluated is the list element the iterator is on");
+  __CPROVER_assert(0 <= k && k < (long)l->n && part == PART_AT(k), "C14: the part evaluated is the list element the iterator is on");
   __CPROVER_assert(D_SAME(tau, g_tau), "C14: every part is evaluated at the time tau");
   cplx r = cplx_ctor2(__CPROVER_uninterpreted_parttau_re(k, tau), __CPROVER_uninterpreted_parttau_im(k, tau));
   model_add(r);
@@ -254,7 +333,7 @@ cplx SusceptibilityPart_of_tau(struct SusceptibilityPart *part, double tau)
 //@function Pomerol::Susceptibility::operator()(std::complex<double>) const as Susceptibility_call_z
 //@contract
 __CPROVER_requires(EVAL_PRE(self) && C_SAME(g_z, z))
-__CPROVER_assigns(g_sum, g_sum_re, g_sum_im, g_evals, self->parts.last_pos)
+__CPROVER_assigns(g_sum, g_sum_re, g_sum_im, g_evals, self->parts.last_pos, self->parts.cur)
 /* an arbitrary part is evaluated exactly once, none if the susceptibility vanishes */
 __CPROVER_ensures(g_evals == EXPECTED_EVALS(self))
 __CPROVER_ensures(self->Vanishing ==> SUM_IS_ZERO)
@@ -262,7 +341,7 @@ __CPROVER_ensures(self->Vanishing ==> SUM_IS_ZERO)
 __CPROVER_ensures(C_SAME(__CPROVER_return_value,
     (self->SubtractDisconnected && D_LT(c_abs(z), 1e-15)) ? op_sub_cplx_cplx(g_sum, op_mul_cplx_double(DISCONNECTED(self), self->beta)) : g_sum))
 //@loop 1
-__CPROVER_assigns(iter.pos, Value, g_sum, g_sum_re, g_sum_im, g_evals, self->parts.last_pos)
+__CPROVER_assigns(iter.pos, Value, g_sum, g_sum_re, g_sum_im, g_evals, self->parts.last_pos, self->parts.cur)
 __CPROVER_loop_invariant(iter.l == &self->parts && 0 <= iter.pos && iter.pos <= (long)self->parts.n)
 __CPROVER_loop_invariant(BITS(Value.re) == g_sum_re && BITS(Value.im) == g_sum_im && BITS(g_sum.re) == g_sum_re && BITS(g_sum.im) == g_sum_im)
 __CPROVER_loop_invariant(g_evals == ((self->parts.gidx >= 0 && iter.pos > self->parts.gidx) ? 1 : 0))
@@ -274,7 +353,7 @@ __CPROVER_decreases((long)self->parts.n - iter.pos)
 /* LIMIT: 2*n must be representable (|n| < 2^62) */
 __CPROVER_requires(-(1L << 62) <= MatsubaraNumber && MatsubaraNumber < (1L << 62))
 __CPROVER_requires(EVAL_PRE(self) && C_SAME(g_z, op_mul_cplx_double(self->MatsubaraSpacing, (double)(2 * MatsubaraNumber))))
-__CPROVER_assigns(g_sum, g_sum_re, g_sum_im, g_evals, self->parts.last_pos)
+__CPROVER_assigns(g_sum, g_sum_re, g_sum_im, g_evals, self->parts.last_pos, self->parts.cur)
 __CPROVER_ensures(g_evals == EXPECTED_EVALS(self))
 /* the value at the bosonic frequency z = MatsubaraSpacing*2n (every part is evaluated there: monitor) */
 __CPROVER_ensures(C_SAME(__CPROVER_return_value,
@@ -284,13 +363,13 @@ __CPROVER_ensures(C_SAME(__CPROVER_return_value,
 //@function Pomerol::Susceptibility::of_tau(double) const as Susceptibility_of_tau
 //@contract
 __CPROVER_requires(EVAL_PRE(self) && D_SAME(g_tau, tau))
-__CPROVER_assigns(g_sum, g_sum_re, g_sum_im, g_evals, self->parts.last_pos)
+__CPROVER_assigns(g_sum, g_sum_re, g_sum_im, g_evals, self->parts.last_pos, self->parts.cur)
 __CPROVER_ensures(g_evals == EXPECTED_EVALS(self))
 __CPROVER_ensures(self->Vanishing ==> SUM_IS_ZERO)
 /* <A><B> is subtracted for every tau */
 __CPROVER_ensures(C_SAME(__CPROVER_return_value, self->SubtractDisconnected ? op_sub_cplx_cplx(g_sum, DISCONNECTED(self)) : g_sum))
 //@loop 1
-__CPROVER_assigns(iter.pos, Value, g_sum, g_sum_re, g_sum_im, g_evals, self->parts.last_pos)
+__CPROVER_assigns(iter.pos, Value, g_sum, g_sum_re, g_sum_im, g_evals, self->parts.last_pos, self->parts.cur)
 __CPROVER_loop_invariant(iter.l == &self->parts && 0 <= iter.pos && iter.pos <= (long)self->parts.n)
 __CPROVER_loop_invariant(BITS(Value.re) == g_sum_re && BITS(Value.im) == g_sum_im && BITS(g_sum.re) == g_sum_re && BITS(g_sum.im) == g_sum_im)
 __CPROVER_loop_invariant(g_evals == ((self->parts.gidx >= 0 && iter.pos > self->parts.gidx) ? 1 : 0))
@@ -388,7 +467,7 @@ void h_Susc_subtract_own(void)
 /* TRUSTED: ComputableObject() sets Status = Constructed (ComputableObject.h); the base sub-object is flattened into the C struct,
  * so the model writes the member of the object under construction */
 #define ComputableObject_ctor0(base_) ((void)(self->Status = Constructed))
-static inline PartList PartList_ctor0(void) { PartList l; l.n = 0; l.last = 0; l.items = 0; l.gidx = -1; l.last_pos = -1; return l; }
+static inline PartList PartList_ctor0(void) { PartList l; l.n = 0; l.last = 0; l.cur = 0; l.gidx = -1; l.last_pos = -1; return l; }
 //@function Pomerol::Susceptibility::Susceptibility(Pomerol::StatesClassification const&, Pomerol::Hamiltonian const&, Pomerol::QuadraticOperator const&, Pomerol::QuadraticOperator const&, Pomerol::DensityMatrix const&) as Susceptibility_ctor5
 //@contract
 __CPROVER_requires(__CPROVER_is_fresh(self, sizeof(*self)) && __CPROVER_is_fresh(H, sizeof(*H)) && __CPROVER_is_fresh(A, sizeof(*A)) && __CPROVER_is_fresh(B, sizeof(*B)) && __CPROVER_is_fresh(DM, sizeof(*DM)))
@@ -422,7 +501,7 @@ long g_copies;                    /* copies made of the source part at the ghost
 static inline struct SusceptibilityPart *SuscPart_copy_monitor(PartList *src, struct SusceptibilityPart *from)
 {
   long k = src->last_pos;
-  __CPROVER_assert(0 <= k && k < (long)src->n && from == src->items[k], "C14 copy: the part copied is the source-list element the iterator is on");
+  __CPROVER_assert(0 <= k && k < (long)src->n && from == PART_AT(k), "C14 copy: the part copied is the source-list element the iterator is on");
   __CPROVER_assert((unsigned long)k == g_n_new, "C14 copy: one new part per source part, in order");
   if (k == src->gidx) g_copies++;
   g_last_new = &g_copy_parts[0] + g_n_new;
@@ -437,7 +516,7 @@ __CPROVER_requires(__CPROVER_is_fresh(self, sizeof(*self)) && __CPROVER_is_fresh
 __CPROVER_requires(PartList_wf(&Chi->parts))
 __CPROVER_requires(C_SAME(Chi->MatsubaraSpacing, op_div_cplx_double(op_mul_cplx_double(I, 3.14159265358979323846), Chi->beta)))
 __CPROVER_requires(g_n_new == 0 && g_copies == 0)
-__CPROVER_assigns(*self, Chi->parts.last_pos, g_n_new, g_last_new, g_copies)
+__CPROVER_assigns(*self, Chi->parts.last_pos, Chi->parts.cur, g_n_new, g_last_new, g_copies)
 __CPROVER_ensures(self->Status == Chi->Status)
 __CPROVER_ensures(!self->Vanishing == !Chi->Vanishing && !self->SubtractDisconnected == !Chi->SubtractDisconnected)
 __CPROVER_ensures(C_SAME(self->ave_A, Chi->ave_A))
@@ -452,7 +531,7 @@ __CPROVER_ensures(self->parts.n == Chi->parts.n && g_n_new == Chi->parts.n && Ch
 __CPROVER_ensures(self->parts.n > 0 ==> self->parts.last == &g_copy_parts[0] + (self->parts.n - 1))
 __CPROVER_ensures(g_copies == (Chi->parts.gidx >= 0 ? 1 : 0))
 //@loop 1
-__CPROVER_assigns(iter.pos, self->parts.n, self->parts.last, Chi->parts.last_pos, g_n_new, g_last_new, g_copies)
+__CPROVER_assigns(iter.pos, self->parts.n, self->parts.last, Chi->parts.last_pos, Chi->parts.cur, g_n_new, g_last_new, g_copies)
 __CPROVER_loop_invariant(iter.l == &Chi->parts && 0 <= iter.pos && iter.pos <= (long)Chi->parts.n)
 __CPROVER_loop_invariant(self->parts.n == (unsigned long)iter.pos && g_n_new == (unsigned long)iter.pos)
 __CPROVER_loop_invariant(iter.pos > 0 ==> self->parts.last == &g_copy_parts[0] + (iter.pos - 1))
@@ -460,7 +539,7 @@ __CPROVER_loop_invariant(g_copies == ((Chi->parts.gidx >= 0 && iter.pos > Chi->p
 __CPROVER_decreases((long)Chi->parts.n - iter.pos)
 //@end
 
-//@harness h_Susc_copy enforce=Susceptibility_init1 props=C14 min_obl=832 timeout=120 reach=2
+//@harness h_Susc_copy enforce=Susceptibility_init1 props=C14 min_obl=838 timeout=120 reach=2
 void h_Susc_copy(void)
 {
   struct Susceptibility *chi, *src;
@@ -506,7 +585,12 @@ void h_Susc_of_tau(void) { struct Susceptibility *chi; double tau; Susceptibilit
  * h_Susc_copy (copy constructor): Status, Vanishing, SubtractDisconnected, ave_A, ave_B, beta, MatsubaraSpacing of the copy = the source's;
  *   same S, H, A, B, DM; one `new SusceptibilityPart(*source part)` per source part, in order, appended to the copy's own list; ghost position
  *   of the source list copied exactly once; sizes equal.  TRUSTED: implicit ComputableObject copy copies Status; the copy of ONE part is opaque.
- * NOT covered: Susceptibility::compute (status logic + one compute() per part), destructor.
+ * h_Susc_compute (Susceptibility::compute, prepare() through its CONTRACT): already computed: nothing happens (so a second call does nothing);
+ *   not prepared: prepare() first (exStatusMismatch of prepare: nothing computed, status unchanged); then SusceptibilityPart::compute() on
+ *   every list element exactly once, in order (monitor + ghost position; number of calls = number of parts); Status = Computed.
+ * h_Susc_isVanishing: returns the flag (which prepare() proves to be "no part").
+ * Susceptibility has no getIndex(); SusceptibilityPart has no getters.
+ * NOT covered: destructor.
  *
  * MUTANTS (scratch copy of /repo, re-extracted; obligation that failed)
  *   prepare: drop `|| isRetained(Aright)`   -> Susceptibility_prepare.loop_invariant_step.5 (ghost pair not created)
@@ -521,5 +605,10 @@ void h_Susc_of_tau(void) { struct Susceptibility *chi; double tau; Susceptibilit
  *   call_z:  subtraction at every z -> postcondition.3;  `-=` -> `+=` -> postcondition.3;  if(Vanishing) -> postcondition.1/.2
  *   call_n:  2n+1 -> SusceptibilityPart_call.assertion.2 (every part is evaluated at z), postcondition.2
  *   of_tau:  extra *beta -> postcondition.3;  `Value -= part` -> accumulator != model (loop invariant)
+ *   compute: Status = Prepared at the end -> Susceptibility_compute.postcondition.6;   first part skipped -> loop invariants (wrapped_for_contract_checking.6/.7)
+ *            early return for Status >= Prepared -> postcondition.6;   prepare() never called -> postcondition.3/.4
+ *            (`Status<=Prepared` before prepare() and `Status>Computed` in the early return survive: both are equivalent -- prepare() on a prepared
+ *             object does nothing, and for Status == Computed the part loop is guarded by `Status<Computed`)
+ *   isVanishing: !Vanishing -> postcondition.1;   parts.size()==0 -> postcondition.1 (not the flag)
  *   subtract: ave_A = ave_B -> 2c.postcondition.1;  results swapped -> 2e.postcondition.2;  EA_B built from A -> EnsembleAverage_ctor4.assertion.2, 0.postcondition.1/.2
  */
